@@ -7,62 +7,18 @@
 (* the expected page list.  Mode "bfs": all histories of exactly MaxLen steps over a fixed     *)
 (* alphabet; mode "sim" (-simulate): random histories of 1..MaxLen steps with random           *)
 (* selections / parameters.                                                                    *)
-EXTENDS Doc, Json, Randomization
+EXTENDS DocTrees, Json, Randomization
 
-CONSTANTS Mode, Ns, Shapes, MaxLen, MaxPages, Alpha, Emit
-VARIABLES tree, hist, len
-vars == <<docvars, tree, hist, len>>
-
----------------------------------------------------------------------------
-(* document trees *)
-A4 == <<0, 0, 595, 842>>
-B1 == <<0, 0, 200, 300>>
-B2 == <<0, 0, 400, 500>>
-B3 == <<10, 20, 310, 420>>
-C1 == <<10, 10, 190, 290>>
-C2 == <<20, 20, 300, 300>>
-C3 == <<5, 5, 100, 100>>
-Pg(i, rot, media, crop) == [mark |-> "p" \o ToString(i), rot |-> rot, media |-> media, crop |-> crop]
-Grp(node, rot, media, crop, ps) == [node |-> node, rot |-> rot, media |-> media, crop |-> crop, pages |-> ps]
-RotCycle == <<-1, 0, 90, 180, 270>>
-Cnt(n, sz, g) == Min2(sz, n - (g - 1) * sz)
-
-Shape(n, k) ==
-  CASE k = 1 ->   \* flat, everything inherited from the root
-         [media |-> A4, rot |-> -1, groups |-> <<Grp(FALSE, -1, NoBox, NoBox, [i \in 1..n |-> Pg(i, -1, NoBox, NoBox)])>>]
-    [] k = 2 ->   \* flat, Rotate inherited from the root, mixed own rotations
-         [media |-> A4, rot |-> 90, groups |-> <<Grp(FALSE, -1, NoBox, NoBox,
-                     [i \in 1..n |-> Pg(i, RotCycle[(i % 5) + 1], NoBox, NoBox)])>>]
-    [] k = 3 ->   \* a page with its own MediaBox/CropBox followed by siblings inheriting theirs
-         [media |-> A4, rot |-> -1, groups |-> <<Grp(FALSE, -1, NoBox, NoBox,
-                     [i \in 1..n |-> Pg(i, IF i = 3 THEN 270 ELSE -1,
-                                        IF i = 1 THEN B1 ELSE IF i = 4 THEN B3 ELSE NoBox,
-                                        IF i = 1 THEN C1 ELSE NoBox)])>>]
-    [] k = 4 ->   \* intermediate nodes of 2 pages with inherited Rotate / MediaBox
-         [media |-> A4, rot |-> 90, groups |->
-            [g \in 1..CeilDiv(n, 2) |->
-               Grp(TRUE, IF g % 2 = 1 THEN 180 ELSE -1, IF g % 3 = 1 THEN B2 ELSE NoBox, NoBox,
-                   [j \in 1..Cnt(n, 2, g) |->
-                      Pg((g - 1) * 2 + j, IF j = 2 /\ g % 2 = 1 THEN 0 ELSE IF j = 1 /\ g % 4 = 0 THEN 270 ELSE -1, NoBox, NoBox)])]]
-    [] k = 5 ->   \* intermediate nodes of 3 pages with inherited CropBox / MediaBox / Rotate, own boxes inside
-         [media |-> A4, rot |-> -1, groups |->
-            [g \in 1..CeilDiv(n, 3) |->
-               Grp(TRUE, IF g % 2 = 0 THEN 270 ELSE -1, IF g % 2 = 1 THEN B2 ELSE NoBox, IF g % 3 # 2 THEN C2 ELSE NoBox,
-                   [j \in 1..Cnt(n, 3, g) |->
-                      Pg((g - 1) * 3 + j, -1,
-                         IF j = 2 /\ g % 2 = 1 THEN B1 ELSE NoBox,
-                         IF j = 2 /\ g % 2 = 1 THEN C1 ELSE IF j = 3 /\ g % 2 = 0 THEN C3 ELSE NoBox)])]]
-    [] k = 6 ->   \* pages directly below the root, then nodes with MediaBox/Rotate, then a page below the root again
-         LET d1   == Min2(2, n)
-             rest == n - d1
-             tail == IF rest >= 3 THEN 1 ELSE 0
-             mid  == rest - tail
-         IN [media |-> A4, rot |-> -1, groups |->
-               <<Grp(FALSE, -1, NoBox, NoBox, [i \in 1..d1 |-> Pg(i, IF i = 2 THEN 90 ELSE -1, IF i = 1 THEN B3 ELSE NoBox, NoBox)])>>
-               \o [g \in 1..CeilDiv(mid, 2) |->
-                     Grp(TRUE, IF g % 2 = 1 THEN 90 ELSE -1, IF g % 2 = 1 THEN B2 ELSE NoBox, NoBox,
-                         [j \in 1..Cnt(mid, 2, g) |-> Pg(d1 + (g - 1) * 2 + j, IF j = 2 THEN 180 ELSE -1, NoBox, NoBox)])]
-               \o (IF tail = 1 THEN <<Grp(FALSE, -1, NoBox, NoBox, <<Pg(n, -1, NoBox, NoBox)>>)>> ELSE <<>>)]
+CONSTANTS Mode,      \* "bfs": all histories over the fixed alphabet | "sim": random histories (-simulate)
+          Ns,        \* page counts of the initial documents
+          Shapes,    \* tree shapes 1..6
+          Deep,      \* bfs: shapes explored to MaxLen steps (the others: 1 step)
+          MaxLen,    \* history length (sim: 1..MaxLen, chosen per behaviour)
+          MaxPages,  \* steps that would exceed this many pages are disabled
+          Deep3,     \* bfs: shapes additionally explored to 3 steps over the small action alphabet
+          Emit
+VARIABLES tree, shape, hist, len, prev, alpha
+vars == <<docvars, tree, shape, hist, len, prev, alpha>>
 
 ---------------------------------------------------------------------------
 (* argument alphabets and their API text *)
@@ -108,38 +64,46 @@ RandCrop     == IF RandomElement(1..2) = 1 THEN CropRect(RandomElement(RandBoxes
 (* a page as printed: <<mark, blank id, rotation, media, crop, trim, bleed, art>> with effective boxes *)
 PageOut(p) == <<p.mark, p.bid, p.rot, p.media, EffCrop(p), EffTrim(p), EffBleed(p), EffArt(p)>>
 Out(ps) == [i \in 1..Len(ps) |-> PageOut(ps[i])]
-StepRec(op, ts, n, txt) == [op |-> op, sel |-> SelRender(ts), n |-> n, txt |-> txt, res |-> res', exp |-> Out(pages')]
-Log(op, ts, n, txt) == hist' = Append(hist, StepRec(op, ts, n, txt)) /\ UNCHANGED <<tree, len>>
+(* bfs: every state is printed, so only its last step carries the expectation (chk); sim: only complete *)
+(* behaviours are printed, every step carries it                                                        *)
+StepRec(op, ts, n, txt) == [op |-> op, sel |-> SelRender(ts), n |-> n, txt |-> txt, res |-> res', chk |-> TRUE, exp |-> Out(pages')]
+Strip(h) == IF Mode = "sim" THEN h ELSE [i \in 1..Len(h) |-> [h[i] EXCEPT !.chk = FALSE, !.exp = <<>>]]
+Log(op, ts, n, txt) == /\ hist' = Append(Strip(hist), StepRec(op, ts, n, txt))
+                       /\ prev' = [i \in 1..Len(pages) |-> <<pages[i].mark, pages[i].bid>>]
+                       /\ UNCHANGED <<tree, shape, len, alpha>>
 
 Fits == Len(pages') <= MaxPages
-(* histories that set a MediaBox on a page whose CropBox is inherited are outside the model (see TreeOK) *)
-MediaGuard(ts, pb) == IsBox(pb.media) => \A i \in SelOrAll(Len(pages), ts) : ~pages[i].cinh
+(* stay inside the documents the model talks about (Doc!Ambig) *)
+Clear == Unambiguous(pages')
+(* removing the crop box of a page with its own MediaBox below a Pages node with a CropBox may or may not leave it ambiguous *)
+RemoveGuard(ts, k) == "crop" \in ToSet(k) => \A i \in SelOrAll(Len(pages), ts) : ~(pages[i].omedia /\ pages[i].pcrop)
 
-DoInsert(ts, before) == InsertBlank(ts, before) /\ Fits /\ Log(IF before THEN "insert_before" ELSE "insert_after", ts, 0, "")
+DoInsert(ts, before) == InsertBlank(ts, before) /\ Fits /\ Clear /\ Log(IF before THEN "insert_before" ELSE "insert_after", ts, 0, "")
 DoRemove(ts)         == RemovePages(ts) /\ Log("remove", ts, 0, "")
 DoTrim(ts)           == Trim(ts) /\ Log("trim", ts, 0, "")
 DoCollect(ts)        == Collect(ts) /\ Fits /\ Log("collect", ts, 0, "")
 DoRotate(ts, r)      == Rotate(ts, r) /\ Log("rotate", ts, r, "")
-DoAddBoxes(ts, pb)   == MediaGuard(ts, pb) /\ AddBoxes(ts, pb) /\ Log("addboxes", ts, 0, PbText(pb))
-DoRemoveBoxes(ts, k) == RemoveBoxes(ts, ToSet(k)) /\ Log("removeboxes", ts, 0, JoinStr(k, ","))
+DoAddBoxes(ts, pb)   == AddBoxes(ts, pb) /\ Clear /\ Log("addboxes", ts, 0, PbText(pb))
+DoRemoveBoxes(ts, k) == RemoveGuard(ts, k) /\ RemoveBoxes(ts, ToSet(k)) /\ Clear /\ Log("removeboxes", ts, 0, JoinStr(k, ","))
 DoCrop(ts, a)        == Crop(ts, a) /\ Log("crop", ts, 0, CropText(a))
 
 SelsAnd0 == SelSetAll \cup {<<>>}
 NextFull ==
-  \/ \E ts \in SelsAnd0, b \in BOOLEAN : DoInsert(ts, b)
+  \/ \E ts \in SelsAnd0 : DoInsert(ts, FALSE)
+  \/ \E ts \in {Sels[2], Sels[4], <<>>} : DoInsert(ts, TRUE)
   \/ \E ts \in SelSetAll : DoRemove(ts)
   \/ \E ts \in SelsAnd0 : DoTrim(ts)
   \/ \E ts \in Lists : DoCollect(ts)
   \/ \E ts \in SelsAnd0 : DoRotate(ts, 90)
   \/ \E r \in {180, -90} : DoRotate(Sels[2], r)
-  \/ \E ts \in {Sels[2], Sels[4], <<>>}, i \in 1..Len(PBs) : DoAddBoxes(ts, PBs[i])
-  \/ \E ts \in {Sels[2], Sels[3], <<>>}, i \in 1..3 : DoRemoveBoxes(ts, RBs[i])
-  \/ \E ts \in {Sels[1], Sels[5], <<>>}, i \in 1..Len(CRs) : DoCrop(ts, CRs[i])
+  \/ \E ts \in {Sels[2], <<>>}, i \in 1..Len(PBs) : DoAddBoxes(ts, PBs[i])
+  \/ \E ts \in {Sels[3], <<>>}, i \in 1..3 : DoRemoveBoxes(ts, RBs[i])
+  \/ \E ts \in {Sels[5], <<>>}, i \in 1..Len(CRs) : DoCrop(ts, CRs[i])
 NextSmall ==
-  \/ \E ts \in {Sels[2], Sels[3]} : DoInsert(ts, FALSE) \/ DoRemove(ts) \/ DoTrim(ts) \/ DoRotate(ts, 270)
-  \/ DoInsert(Sels[4], TRUE)
+  \/ \E ts \in {Sels[2], Sels[3]} : DoInsert(ts, FALSE) \/ DoTrim(ts) \/ DoRotate(ts, 270)
+  \/ DoRemove(Sels[4])
   \/ DoCollect(<<T1("n", 2), T1("n", 1), T1("n", 2)>>)
-  \/ DoAddBoxes(Sels[3], PBs[4]) \/ DoAddBoxes(Sels[1], PBs[3])
+  \/ DoAddBoxes(Sels[3], PBs[4])
   \/ DoRemoveBoxes(<<>>, RBs[4])
   \/ DoCrop(Sels[2], CRs[2])
 NextSim ==
@@ -153,38 +117,40 @@ NextSim ==
     \/ \E k \in {RandRB} : DoRemoveBoxes(ts, k)
     \/ \E a \in {RandCrop} : DoCrop(ts, a)
 
-Init == /\ \E n \in Ns, k \in Shapes : tree = Shape(n, k)
-        /\ DocInit(TreePages(tree)) /\ hist = <<>>
-        /\ len \in (IF Mode = "sim" THEN 1..MaxLen ELSE {MaxLen})
+Init == /\ \E n \in Ns, k \in Shapes :
+             /\ shape = <<n, k>> /\ tree = Shape(n, k, "p")
+             /\ \/ alpha = "full" /\ len \in (IF Mode = "sim" THEN 1..MaxLen ELSE IF k \in Deep THEN {MaxLen} ELSE {1})
+                \/ alpha = "small" /\ Mode = "bfs" /\ k \in Deep3 /\ len = 3
+        /\ DocInit(TreePages(tree)) /\ hist = <<>> /\ prev = <<>>
 Next == /\ Len(hist) < len
-        /\ IF Mode = "sim" THEN NextSim ELSE IF Alpha = "small" THEN NextSmall ELSE NextFull
+        /\ IF Mode = "sim" THEN NextSim ELSE IF alpha = "small" THEN NextSmall ELSE NextFull
 Spec == Init /\ [][Next]_vars
 
 ---------------------------------------------------------------------------
 (* design properties of the model itself *)
-InitMarks == {TreePages(tree)[i].mark : i \in 1..Len(TreePages(tree))}
-TreesOK   == TreeOK(tree)
-PagesOK   == \A i \in 1..Len(pages) :
-               /\ pages[i].rot \in {0, 90, 180, 270}
-               /\ (pages[i].bid = 0 => pages[i].mark \in InitMarks)
-               /\ (pages[i].bid # 0 => pages[i].mark = "" /\ pages[i].bid \in 1..nblank)
-               /\ IsBox(pages[i].media)
-MarksOf(o) == [i \in 1..Len(o) |-> <<o[i][1], o[i][2]>>]
+TreesOK   == Unambiguous(pages)
+PagesOK   == LET tp    == TreePages(tree)
+                 marks == {tp[i].mark : i \in 1..Len(tp)}
+             IN \A i \in 1..Len(pages) :
+                  LET p == pages[i] IN
+                  /\ p.rot \in {0, 90, 180, 270}
+                  /\ (p.bid = 0 => p.mark \in marks)
+                  /\ (p.bid # 0 => p.mark = "" /\ p.bid \in 1..nblank)
+                  /\ IsBox(p.media)
 RECURSIVE IsSubSeq(_, _)
 IsSubSeq(a, b) == IF a = <<>> THEN TRUE ELSE IF b = <<>> THEN FALSE
                   ELSE IF Head(a) = Head(b) THEN IsSubSeq(Tail(a), Tail(b)) ELSE IsSubSeq(a, Tail(b))
 (* the last step relates to the page list before it as the operation says *)
 StepSane ==
   hist # <<>> =>
-    LET s    == hist[Len(hist)]
-        prev == IF Len(hist) = 1 THEN MarksOf(Out(TreePages(tree))) ELSE MarksOf(hist[Len(hist) - 1].exp)
-        now  == MarksOf(s.exp)
+    LET s   == hist[Len(hist)]
+        now == [i \in 1..Len(pages) |-> <<pages[i].mark, pages[i].bid>>]
     IN /\ s.res = "refuse" => now = prev
        /\ s.op \in {"rotate", "addboxes", "removeboxes", "crop"} => now = prev
        /\ s.op \in {"insert_before", "insert_after"} => SelectSeq(now, LAMBDA x : x \in ToSet(prev)) = prev
        /\ s.op \in {"trim", "remove"} => IsSubSeq(now, prev)
        /\ s.op = "collect" => ToSet(now) \subseteq ToSet(prev)
 
-Case == [tree |-> tree, init |-> Out(TreePages(tree)), steps |-> hist]
-EmitCase == Emit /\ Len(hist) = len => PrintT(<<"CASE", ToJson(Case)>>)
+Case == [n |-> shape[1], k |-> shape[2], alpha |-> alpha, tree |-> tree, init |-> Out(TreePages(tree)), steps |-> hist]
+EmitCase == Emit /\ hist # <<>> /\ (Mode = "sim" => Len(hist) = len) => PrintT(<<"CASE", ToJson(Case)>>)
 =============================================================================
